@@ -50,6 +50,16 @@ class C08(Check):
                                narrow_fov=narrow, decision=dec, model="two_body" if rng.random() < 0.9 else None, out_mult=rng.choice([1, 1, 1, 2, 3]),
                                space_sensor_p=0.1, two_engines_p=0.2, geo_p=0.75, placed_p=0.95, cluster_p=0.35, background=rng.random() < 0.7, id_stride=rng.choice([1, 1, 1, 8]),      # ids 8 apart collide in small hash tables (set / dict iteration then follows insertion order)
                                kinds=("radar", "adv_radar", "optical") if rng.random() < 0.3 else ("radar", "adv_radar"), masks=rng.random() < 0.4)
+        if rng.random() < 0.2:
+            # narrow fields of view, estimates kilometres off and targets flying a few km apart: a tasked sensor misses its own target while a
+            # neighbour, tasked to the companion, catches it serendipitously (records of one target then come from two jobs of one step)
+            narrow = True
+            cfg = gen.network_case(rng, nsteps=rng.randrange(2, 5), n_sensors=rng.randrange(2, 4), n_targets=rng.randrange(2, 5), coarse=True, narrow_fov=True,
+                                   decision=rng.choice(["MunkresDecision", "MyopicNaiveGreedyDecision"]), model="two_body", out_mult=rng.choice([1, 1, 2]), space_sensor_p=0.0,
+                                   two_engines_p=0.0, geo_p=1.0, placed_p=1.0, cluster_p=0.9, background=True, kinds=("radar", "adv_radar"), masks=False)
+            for s0 in cfg["engines"][0]["sensors"][1:]:
+                s0["state"].update({k2: cfg["engines"][0]["sensors"][0]["state"][k2] for k2 in ("latitude", "longitude", "altitude")})
+                s0["state"]["latitude"] = max(-89.0, min(89.0, s0["state"]["latitude"] + rng.uniform(-0.02, 0.02)))
         if narrow:
             cfg["noise"]["init_position_std_km"] = rng.choice([1.0, 5.0, 20.0])
             cfg["noise"]["init_velocity_std_km_p_sec"] = rng.choice([1e-4, 1e-3])
